@@ -10,6 +10,7 @@
 //	m <mods>                      timestamp(m <mods>)
 //	m[r] <mods>                   f(m[r] <mods>)                f in count/last/min_over_time
 //	(inner)[r:s] <mods>           f((inner)[r:s] <mods>)        inner = m <mods> | timestamp(m <mods>)
+//	(f1((inner)[r1:s1] <mods>))[r2:s2] <mods>   and f2 of it   (two nesting levels)
 //
 // (<mods> = offset, possibly negative, and/or @ <fixed time>) and writes the series, the query, the
 // select hints the engine produced and the observed result as Gallina terms.
@@ -186,6 +187,11 @@ type query struct {
 	Range   int64  `json:"range,omitempty"`
 	Step    int64  `json:"step,omitempty"` // 0 = default subquery step
 	Sub     sel    `json:"sub"`
+	// nested forms (kind sub2 | sub2fn): (Fn1((inner)[Range:Step] Sub))[Range2:Step2] Sub2, Fn of it
+	Fn1     string `json:"fn1,omitempty"`
+	Range2  int64  `json:"range2,omitempty"`
+	Step2   int64  `json:"step2,omitempty"`
+	Sub2    sel    `json:"sub2"`
 	Paren   bool   `json:"paren,omitempty"`
 	AtFirst bool   `json:"at_first,omitempty"` // print "@ .. offset .." instead of "offset .. @ .."
 }
@@ -248,6 +254,17 @@ func (q query) String() string {
 	if q.Kind == "sub" {
 		return sq
 	}
+	if q.Kind == "sub2" || q.Kind == "sub2fn" {
+		st2 := ""
+		if q.Step2 != 0 {
+			st2 = dur(q.Step2)
+		}
+		sq2 := "(" + q.Fn1 + "_over_time(" + sq + "))[" + dur(q.Range2) + ":" + st2 + "]" + mods(q.Sub2, q.AtFirst)
+		if q.Kind == "sub2" {
+			return sq2
+		}
+		return q.Fn + "_over_time(" + sq2 + ")"
+	}
 	return q.Fn + "_over_time(" + sq + ")"
 }
 
@@ -273,6 +290,14 @@ func (q query) term() string {
 		return fmt.Sprintf("(QRangeFn %s %s %s %s)", fn, gallina.Z(q.Range), gallina.Z(q.In.Off), optZ(q.In.At))
 	case "sub":
 		return fmt.Sprintf("(QSub %s %s %s %s %s)", in, gallina.Z(q.Range), gallina.Z(q.Step), gallina.Z(q.Sub.Off), optZ(q.Sub.At))
+	case "sub2", "sub2fn":
+		fn1 := map[string]string{"count": "FCount", "last": "FLast", "min": "FMin"}[q.Fn1]
+		args := fmt.Sprintf("%s %s %s %s %s %s %s %s %s %s", fn1, in, gallina.Z(q.Range), gallina.Z(q.Step), gallina.Z(q.Sub.Off), optZ(q.Sub.At),
+			gallina.Z(q.Range2), gallina.Z(q.Step2), gallina.Z(q.Sub2.Off), optZ(q.Sub2.At))
+		if q.Kind == "sub2" {
+			return "(QSub2 " + args + ")"
+		}
+		return "(QSub2Fn " + fn + " " + args + ")"
 	default:
 		return fmt.Sprintf("(QSubFn %s %s %s %s %s %s)", fn, in, gallina.Z(q.Range), gallina.Z(q.Step), gallina.Z(q.Sub.Off), optZ(q.Sub.At))
 	}
@@ -574,7 +599,60 @@ func genCase(r *gen.Rand) tcase {
 	if rng <= 0 {
 		rng = 1
 	}
-	switch k := r.Intn(12); {
+	switch k := r.Intn(15); {
+	case k >= 12: // nested subqueries: (f1((inner)[r1:s1] mods1))[r2:s2] mods2 [under f2]
+		q.Kind = "sub2"
+		if r.Chance(1, 3) {
+			q.Kind = "sub2fn"
+			q.Fn = gen.Pick(r, []string{"count", "last", "min"})
+		}
+		q.Fn1 = gen.Pick(r, []string{"count", "last", "last", "min"})
+		small := func(w int64) int64 { // a step giving at most ~6 evaluations per window
+			st := r.PickI64(w, w/2, w/3+1, w+1, w-1, unit, 2*unit)
+			if st <= 0 || w/st > 6 {
+				st = w/r.Range(1, 5) + 1
+			}
+			return st
+		}
+		q.Range = r.PickI64(2, 3, unit, 2*unit, 3*unit+1, 5*unit)
+		q.Step = small(q.Range)
+		q.Range2 = r.PickI64(2, 3, unit, 2*unit, 4*unit, 6*unit+1)
+		q.Step2 = small(q.Range2)
+		if r.Chance(1, 8) {
+			q.Step = 0
+		}
+		// the inner subquery's effective time te1 lands on/near the series; the outer one is placed
+		// so that its steps reach it: with an @ on the inner subquery the outer offset is free
+		te1 := anchor + edge(r, lookback) + r.Range(0, 1)*q.Range
+		if r.Chance(1, 2) { // inner subquery with @ (pins its window), own offset optional
+			o1 := int64(0)
+			if r.Chance(1, 2) {
+				o1 = r.Range(-3, 4)*unit + r.Range(-1, 1)
+			}
+			q.Sub = sel{Off: o1, At: ip(te1 + o1)}
+			c.ts = te1 + r.Range(-10, 10)*unit
+			switch r.Intn(4) {
+			case 0:
+			case 1, 2: // outer offset of either sign: must not move the inner window
+				q.Sub2.Off = r.Range(-6, 8)*unit + r.Range(-1, 1)
+			default:
+				q.Sub2 = place(r, c.ts+r.Range(-5, 5)*unit, unit, &c.ts, true)
+			}
+		} else { // relative inner subquery: the outer steps u2 in (te2-r2, te2], te1 = u2 - off1
+			o1 := int64(0)
+			if r.Chance(1, 2) {
+				o1 = r.Range(-3, 4)*unit + r.Range(-1, 1)
+			}
+			q.Sub.Off = o1
+			te2 := te1 + o1 + r.Range(0, q.Range2-1)
+			q.Sub2 = place(r, te2, unit, &c.ts, false)
+		}
+		switch r.Intn(5) { // the selector: mostly plain / offset (its hints then depend on the path)
+		case 0:
+			q.In.Off = r.Range(-3, 4)*unit + r.Range(-1, 1)
+		case 1:
+			q.In.At = ip(anchor + edge(r, lookback))
+		}
 	case k < 3: // instant selector / timestamp(): anchor sample at distance `edge` behind te
 		q.Kind = "inner"
 		q.InnerTs = k == 2 || r.Chance(1, 4)
@@ -675,6 +753,15 @@ func corpus() []tcase {
 		mk("regression-timestamp-at-neg-offset-in-sub", query{Kind: "sub", InnerTs: true, Range: 2, Step: 1, In: sel{Off: -20, At: ip(21)}}, 2, 50),
 		mk("subfn-min-timestamp", query{Kind: "subfn", Fn: "min", InnerTs: true, Range: 40, Step: 10}, 80, 10),
 		mk("subfn-last-default-step", query{Kind: "subfn", Fn: "last", Range: 40, Step: 0}, 80, 10),
+		// nested subqueries; the first three need the @-reset of subqueryTimes (inner subquery with
+		// @, outer with a non-zero offset, selector without @)
+		mk("nested-inner-at-outer-offset", query{Kind: "sub2fn", Fn: "last", Fn1: "last", Range: 20, Step: 10, Sub: sel{At: ip(50)}, Range2: 20, Step2: 10, Sub2: sel{Off: 30}}, 1000, 10),
+		mk("nested-inner-at-outer-neg-offset", query{Kind: "sub2", Fn1: "count", Range: 25, Step: 5, Sub: sel{Off: 5, At: ip(65)}, Range2: 30, Step2: 10, Sub2: sel{Off: -40}}, 200, 10),
+		mk("nested-inner-at-outer-at-offset", query{Kind: "sub2", Fn1: "min", Range: 30, Step: 10, In: sel{Off: 5}, Sub: sel{At: ip(60)}, Range2: 20, Step2: 10, Sub2: sel{Off: 100, At: ip(500)}}, 300, 10),
+		mk("nested-relative", query{Kind: "sub2", Fn1: "last", Range: 20, Step: 10, Range2: 30, Step2: 10}, 60, 10),
+		mk("nested-relative-offsets", query{Kind: "sub2fn", Fn: "count", Fn1: "last", Range: 20, Step: 10, Sub: sel{Off: 10}, Range2: 30, Step2: 10, Sub2: sel{Off: -20}}, 50, 10),
+		mk("nested-outer-at", query{Kind: "sub2", Fn1: "count", Range: 20, Step: 5, Sub: sel{Off: -5}, Range2: 20, Step2: 10, Sub2: sel{At: ip(70)}}, 1000, 10),
+		mk("nested-selector-at", query{Kind: "sub2", Fn1: "last", Range: 20, Step: 10, In: sel{At: ip(30)}, Range2: 20, Step2: 10, Sub2: sel{Off: 7}}, 100, 10),
 		mk("sub-negative-times", query{Kind: "sub", Range: 25, Step: 10}, -5, 30),
 	}
 }
@@ -722,7 +809,7 @@ func shapeOf(c tcase, res result) string {
 func main() {
 	f := gallina.ParseFlags()
 	meta := gallina.NewMeta("C28", f.Seed, f.Tier)
-	meta.Rule = "corpus + seeded cases: one series (0..24 samples; float / float-histogram / integer-histogram, stale markers, ms- to 15s-scale spacing, negative times) and one instant query of the six modelled forms whose window edges (lookback, range, subquery window, step grid) are steered onto sample timestamps / step multiples (0, +-1, w-1, w, w+1) through ts, offset (both signs) and @; non-trivial = the real engine returned a non-empty result (at least one selected point); distinct by (series, query text, ts, lookback, default step)"
+	meta.Rule = "corpus + seeded cases: one series (0..24 samples; float / float-histogram / integer-histogram, stale markers, ms- to 15s-scale spacing, negative times) and one instant query of the six modelled forms or the two nested-subquery forms whose window edges (lookback, range, subquery window, step grid) are steered onto sample timestamps / step multiples (0, +-1, w-1, w, w+1) through ts, offset (both signs) and @; non-trivial = the real engine returned a non-empty result (at least one selected point); distinct by (series, query text, ts, lookback, default step)"
 	perShard := 420
 	if f.Tier == "thorough" {
 		perShard = 1000
@@ -780,6 +867,14 @@ func main() {
 		}
 		if c.q.Sub.Off < 0 {
 			meta.Hit("sub-neg-offset")
+		}
+		if c.q.Kind == "sub2" || c.q.Kind == "sub2fn" {
+			if c.q.Sub.At != nil && c.q.Sub2.Off != 0 && c.q.In.At == nil {
+				meta.Hit("nested-inner-at-outer-offset")
+			}
+			if c.q.Sub2.At != nil {
+				meta.Hit("nested-outer-at")
+			}
 		}
 		if len(res.Pts) == 0 {
 			meta.Hit("empty-result")
